@@ -199,6 +199,19 @@ fn main() {
                 format!("monotonic {} {}", bad, worst)
             }
             ["sleep", req, rest @ ..] => sleep_scripted(req.parse().unwrap(), rest),
+            // the Duration -> TimeSpec conversion of rusl (what thread::sleep hands to nanosleep)
+            ["d2ts", secs, nanos] => {
+                let (secs, nanos): (u64, u32) = (secs.parse().unwrap(), nanos.parse().unwrap());
+                match std::panic::catch_unwind(move || {
+                    match rusl::platform::TimeSpec::try_from(core::time::Duration::new(secs, nanos)) {
+                        Ok(t) => format!("some {} {}", t.seconds(), t.nanoseconds()),
+                        Err(_) => "none".to_string(),
+                    }
+                }) {
+                    Ok(s) => s,
+                    Err(_) => "panic".to_string(),
+                }
+            }
             ["elapsed", kind, delta] => {
                 let (kind, delta) = (kind.to_string(), delta.parse::<i64>().unwrap());
                 match std::panic::catch_unwind(move || time::verif::elapsed_probe(&kind, delta)) {
